@@ -221,16 +221,37 @@ def check_init(chk, db):
                         # stored through a member function called unconditionally (set_size(...)) ?
                         b = P.Builder(db, max_depth=3, versioning=False)
                         prog, ctx = b.build(f)
-                        for nd in prog:
-                            stack = [nd]
-                            while stack:
-                                x = stack.pop()
+                        # the store must come first and unconditionally: a store inside a loop or branch may not happen, and a
+                        # store behind a check or a construction that already consulted the field (push_back: `construct_at(end())`,
+                        # `size() + 1`) reads the indeterminate value it is supposed to replace
+                        tainted = [False]
+
+                        def scan(nodes):
+                            for x in nodes:
+                                if assigned_box[0]:
+                                    return
                                 if x[0] == "effect" and x[2].get("field") == fd["n"] and x[2].get("root") == "this":
-                                    assigned = True
-                                elif x[0] == "inline":
-                                    stack.extend(x[2])
+                                    if not tainted[0]:
+                                        assigned_box[0] = True
+                                    return
+                                if x[0] == "inline":
+                                    scan(x[2])
+                                elif x[0] in ("loop", "branch"):
+                                    tainted[0] = True
+                                elif x[0] == "guard" or (x[0] == "effect" and x[2].get("token") in ("construct", "destroy")):
+                                    tainted[0] = True
+                        assigned_box = [False]
+                        scan(prog)
+                        assigned = assigned_box[0]
                     if not assigned:
-                        bad = "constructor %s does not initialise it" % astx.sig(f)
+                        # reported per constructor (a known finding about one constructor must not hide another one)
+                        c2 = "%s in %s" % (construct, astx.sig(f))
+                        chk.obligation("INIT", c2, False)
+                        chk.violation("INIT", c2, "indeterminate",
+                                      "include/etl/%s:%s: state field %s read by the public observers: constructor %s does not initialise "
+                                      "it before it is read (a store inside a loop or branch, or behind a check / construction that "
+                                      "already consulted it, does not count)" % (rec["file"], f.get("line"), construct, astx.sig(f)),
+                                      {"record": owner_q, "field": fd["n"]})
                 chk.obligation("INIT", construct, bad is None)
                 if bad:
                     chk.violation("INIT", construct, "indeterminate",
@@ -397,6 +418,8 @@ META = (META[0] + ' FIRSTREAD (shared with C08: the first character a search rea
 
 META = (META[0] + ' CONDORDER (in a counted routine the count test precedes the dereference it guards inside every && condition).', META[1])
 
+META = (META[0] + ' PREVBOUND (a loop that stops at `!= prev(last)` knows the range is not empty; controls in fixtures/extra8_pos.hpp).', META[1])
+
 
 def run(chk, tier):
     db = D.load("plain")
@@ -470,7 +493,8 @@ def run(chk, tier):
     # ---- RSTEP: downward scans compare the cursor with its lower bound before every step
     from ..rules import extra8 as _X8
     _X8.dist_guard_area(chk, cdb, ['_algorithm/', '_numeric/', '_string_view/', '_strings/'])      # DISTGUARD
-    _X8.positive_controls(chk, D, ('DISTGUARD',))
+    _X8.positive_controls(chk, D, ('DISTGUARD', 'PREVBOUND'))
+    _X8.prev_bound_area(chk, cdb, ['_algorithm/', '_numeric/'])      # PREVBOUND (zero expected on the library)
     from ..rules import exits as _EXF
     if _EXF.check_first_read(chk, D.load('plain')) < 4:      # FIRSTREAD: an empty view is never read, the first read is inside the view
         chk.analysis_broken('FIRSTREAD: fewer than 4 searches that scan by themselves (floor 4)')
